@@ -1,5 +1,10 @@
 """C01 registry entry (see DESIGN.md section 3, C01)."""
 from ._util import q as _q
+from . import cov as _cov
+
+
+def _post(ctx):
+    _cov.summary(ctx, "mon_c01")
 
 ID = "C01"
 PROP = {
@@ -20,9 +25,11 @@ PROP = {
                     "inputs outside general position (filter: 3.001+M*2^-50 separation) are not explored"],
     "floor": _q(5000, 100000),
     "must_count": _q(["points_judged", "boundary_points_checked"], ["points_judged", "boundary_points_checked"]),
+    "post": _post,
     "jobs": [
         {"mon": "mon_c01", "cfg": "plain", "cases": _q(40000, 1600000)},
         {"mon": "mon_c01", "cfg": "hp", "cases": _q(20000, 800000), "seed_off": 1000003},
         {"mon": "mon_c01", "cfg": "portable", "cases": _q(0, 400000), "seed_off": 2000003},
+        {"mon": "mon_c01", "cfg": "cov", "cases": _q(0, 30000), "seed_off": 3000003, "shards": 4, "env": _cov.env_for("mon_c01")},
     ],
 }
